@@ -84,8 +84,9 @@ CLAIMED = {
              'documented unit evaluates (through the model of tokeniser, parser, prefix lookup and evaluator) to the SI value and seven exponents '
              'of an independently written SI table; every prefix is its power of ten; every prefix x unit (exhaustive) is 10^k times the unit '
              'unless shadowed - by vm_compute lifted with forallb_forall; (ii) for all inputs: conversion is the ratio of magnitudes, there-and-back '
-             'is the identity, incompatible conversion raises UnitsError, parsing ends in a tree or the units parse error, evaluation in a value, '
-             'the parse error, or the two named arithmetic guards. A table change that contradicts SI breaks a proof obligation; the search then '
+             'is the identity, incompatible conversion raises UnitsError; for EVERY text the parser ends with a tree or the units parse error and '
+             'never runs out of fuel (progress of every factor), and the evaluator ends with a value, the parse error, or one of the named '
+             'arithmetic guards - never another exception. A table change that contradicts SI breaks a proof obligation; the search then '
              'names the unit and confirms it on the implementation. Tie: correspondence of the whole evaluator on names x prefixes (exhaustive), '
              'generated expression trees, malformed variants, bounded-exhaustive token strings.',
         design='5 / C10',
